@@ -90,7 +90,7 @@ DecodeResp(b) ==
                            IF Len(q) < 4 THEN Err("invalid")
                            ELSE LET nr == U32(q) IN
                                 \* rows of zero columns occupy no bytes: their number is capped by the frame limit
-                                IF nr = Huge THEN Err("invalid")
+                                IF nr = Huge \/ (nc = 0 /\ nr > MaxFrame) THEN Err("invalid")
                                 ELSE IF nc = 0 /\ nr > 64 THEN [ok |-> TRUE, m |-> [tag |-> tag, cols |-> <<>>, nrows |-> nr]]
                                 ELSE LET rs == DecodeRows(Drop(q, 4), nr, nc) IN
                                      IF rs.ok THEN Ok([tag |-> tag, cols |-> cs.m, rows |-> rs.m]) ELSE Err("invalid")
